@@ -43,6 +43,12 @@ let () =
   let cur_id = ref "" and cur_n = ref 0 and cur_w = ref false in
   let ds = ref [] and qs = ref [] and fs = ref [] and kind = ref "C" and cur_uf = ref false in
   let bound = ref 0 and wits = ref [] in
+  let tbl = ref [] and rops = ref [] and zops = ref [] and zext = ref None in
+  let bits s = List.init (String.length s) (fun i -> s.[i] = '1') in
+  let str_of_world w = String.concat "" (List.map (fun b -> if b then "1" else "0") w) in
+  let str_of_on = function None -> "-" | Some r -> string_of_int (int_of_nat r) in
+  let str_of_table t = String.concat "," (List.map (fun (w, r) -> str_of_world w ^ ":" ^ str_of_on r) t) in
+  let idx_of_bits s = let v = ref 0 in String.iter (fun c -> v := 2 * !v + (if c = '1' then 1 else 0)) s; !v in
   let amap = ref [] and hard = ref [] and cls = ref [] and grps = ref [] and curkey = ref (-1) and form = ref FTop in
   let parse_lits r = List.map (fun t -> let i = int_of_string t in (i > 0, nat_of_int (abs i - 1))) r in
   let flush_group () = if !curkey >= 0 then begin grps := (nat_of_int !curkey, List.rev !cls) :: !grps; cls := []; curkey := -1 end in
@@ -58,6 +64,21 @@ let () =
            kind := "G"; cur_id := id; cur_n := int_of_string n; cur_w := (w = "1"); cur_uf := (uf = "1"); ds := []; fs := []
        | "I" :: id :: n :: b :: _ -> kind := "I"; cur_id := id; cur_n := int_of_string n; bound := int_of_string b; ds := []; qs := []; wits := []
        | "X" :: qi :: r -> wits := (nat_of_int (int_of_string qi), List.map (fun t -> nat_of_int (int_of_string t)) r) :: !wits
+       | "R" :: id :: n :: _ -> kind := "R"; cur_id := id; cur_n := int_of_string n; tbl := []; rops := []
+       | "W" :: b :: r :: _ -> tbl := (bits b, (if r = "-" then None else Some (nat_of_int (int_of_string r)))) :: !tbl
+       | "OF" :: r -> rops := ("F", r) :: !rops
+       | "OA" :: r -> rops := ("A", r) :: !rops
+       | "OM" :: r -> rops := ("M", r) :: !rops
+       | "OC" :: r -> rops := ("C", r) :: !rops
+       | "OT" :: r -> rops := ("T", r) :: !rops
+       | "OU" :: r -> rops := ("U", r) :: !rops
+       | "Z" :: id :: n :: e :: _ -> kind := "Z"; cur_id := id; cur_n := int_of_string n; ds := []; fs := []; zops := [];
+           zext := (if e = "1" then Some true else if e = "0" then Some false else None)
+       | "PR" :: b :: _ -> zops := ORank (nat_of_int (idx_of_bits b)) :: !zops
+       | "PF" :: b :: _ -> zops := OForce (nat_of_int (idx_of_bits b)) :: !zops
+       | "PA" :: _ -> zops := OAll :: !zops
+       | "PQ" :: r -> let (f, rest) = parse_form r in if rest <> [] then failwith "PQ: trailing"; zops := OFrank f :: !zops
+       | "PC" :: r -> zops := OAccept (parse_cond ("0" :: r)) :: !zops
        | "K" :: id :: n :: _ -> kind := "K"; cur_id := id; cur_n := int_of_string n; cls := []; amap := []
        | "M" :: id :: n :: _ -> kind := "M"; cur_id := id; cur_n := int_of_string n; cls := []; hard := []; grps := []; curkey := -1
        | "A" :: r -> amap := List.map (fun t -> nat_of_int (int_of_string t)) r
@@ -69,7 +90,29 @@ let () =
        | "D" :: r -> ds := parse_cond r :: !ds
        | "Q" :: r -> qs := parse_cond r :: !qs
        | "E" :: _ ->
-           if !kind = "I" then begin
+           if !kind = "R" then begin
+             let t = List.rev !tbl in
+             let pf r = let (f, rest) = parse_form r in if rest <> [] then failwith "op: trailing"; f in
+             List.iteri (fun i (k, r) ->
+               let res = match k with
+                 | "F" -> str_of_on (frank t (pf r))
+                 | "A" -> if accept t (parse_cond ("0" :: r)) then "1" else "0"
+                 | "M" -> str_of_table (marginalize (List.map (fun x -> nat_of_int (int_of_string x)) r) t)
+                 | "C" -> str_of_table (conditionalize t (pf r))
+                 | "T" -> String.concat ";" (List.map (fun l -> String.concat "," (List.map str_of_world l)) (ranks2tpo t))
+                 | "U" -> str_of_table (List.map (fun (w, r) -> (w, Some r)) (tpo_back t (List.map (fun x -> nat_of_int (int_of_string x)) r)))
+                 | _ -> "?" in
+               Printf.printf "%s|%d|%s\n" !cur_id i res) (List.rev !rops)
+           end else if !kind = "Z" then begin
+             match run_zocf (nat_of_int !cur_n) !zext (List.rev !fs) (List.rev !ds) (List.rev !zops) with
+             | None -> Printf.printf "%s|REFUSE\n" !cur_id
+             | Some (part, steps) ->
+                 Printf.printf "%s|%s\n" !cur_id (str_of_part (Some part));
+                 List.iteri (fun i (c, o) ->
+                   let os = match o with VNat r -> string_of_int (int_of_nat r) | VOpt r -> str_of_on r | VBool b -> if b then "1" else "0"
+                     | VTable t -> String.concat "," (List.map (fun r -> string_of_int (int_of_nat r)) t) in
+                   Printf.printf "%s|%d|%s|%s\n" !cur_id i os (String.concat "," (List.map str_of_on c))) steps
+           end else if !kind = "I" then begin
              let (((mins, selff), qrows), wres) = run_cinf (nat_of_int !cur_n) (List.rev !ds) (List.rev !qs) (List.rev !wits) (nat_of_int !bound) in
              let fam f = str_of_fam f in
              let mins_s = String.concat " " (List.map (fun (v, f) -> fam v ^ ";" ^ fam f) mins) in
